@@ -116,6 +116,8 @@ func expect(cs *caseSpec) expectation {
 			e.label = oneShellLabel(how)
 		case isLogExit(how):
 			e.label = logLabel(how)
+		case isCacheExit(how):
+			e.label = cacheLabel(cs.cfg.CacheLoc)
 		default:
 			e.label = "normal exit by Ctrl+D"
 		}
